@@ -5,7 +5,10 @@ use errno::{errno, Errno};
 use std::ffi::{c_void, CStr};
 use std::mem::size_of;
 use std::ptr;
+#[cfg(not(clockbound_verif))]
 use std::sync::atomic;
+#[cfg(clockbound_verif)]
+use crate::verif::atomic;
 
 use crate::shm_header::ShmHeader;
 use crate::{syserror, ClockErrorBound, ShmError};
@@ -267,7 +270,10 @@ impl ShmReader {
         while retries > 0 {
             // Read the ClockErrorBound data from the shared memory
             // SAFETY: `ceb_at` has been checked to be valid while creating the ShmReader
+            #[cfg(not(clockbound_verif))]
             let snapshot = unsafe { self.ceb_shm.read_volatile() };
+            #[cfg(clockbound_verif)]
+            let snapshot = unsafe { crate::verif::data_read(self.ceb_shm) };
 
             // Confirm no update occurred during the read
             let second_gen = generation.load(atomic::Ordering::Acquire);
